@@ -407,12 +407,65 @@ def gen_spec(r, big=False, pkg=None, fnames=None, with_dep=None, with_subs=None)
             for m, path in all_msgs(top, []):
                 full = ".".join([fp] + path)
                 fill_fields(r, m, full, path, local_m, local_e, earlier_m, earlier_e, ext_msgs, ext_enums, big, syms, fp)
+    if pkg != DEP_PACKAGE and r.maybe(0.25):
+        inject_namesake(r, spec)
     while True:
         try:
             context_cost(spec, 9000)
             return spec
         except _TooDense:
             thin(spec, r)
+
+
+def inject_namesake(r, spec):
+    """the nested-namesake shape: a NESTED message (depth 2 or 3) called like a top-level message T of the same file or of an
+    earlier file, OWNING nested enums / messages called like T's own, with fields typed by T's nested types (every
+    cardinality) next to fields typed by its own: a reference printed relative to the wrong scope (bare `Code`) still
+    resolves — to the namesake's type — so only the run-time type of the field shows it (descriptor:type_name)"""
+    files = spec["files"]
+    cands = [(i, f, t) for i, f in enumerate(files) for t in f["messages"] if t["messages"] or t["enums"]]
+    if not cands:
+        return
+    i, f, t = r.pick(cands)
+    hosts = []
+    for g in files[i:] if r.maybe(0.3) else [f]:
+        for u in g["messages"]:
+            if u is t or u["name"] == t["name"]:
+                continue
+            hosts.append((g, u, [u["name"]]))
+            for n in u["messages"]:
+                if n["name"] != t["name"]:
+                    hosts.append((g, n, [u["name"], n["name"]]))
+    hosts = [h for h in hosts if t["name"] not in {x["name"] for x in h[1]["messages"] + h[1]["enums"]}
+             and not any(fl["name"] == t["name"] or map_entry_name(fl["name"]) == t["name"] for fl in h[1]["fields"])]
+    if not hosts:
+        return
+    g, parent, ppath = r.pick(hosts)
+    tfull = file_pkg(spec, f) + "." + t["name"]
+    nfull = ".".join([file_pkg(spec, g)] + ppath + [t["name"]])
+    ns = {"name": t["name"], "oneofs": [], "fields": [], "messages": [], "enums": []}
+    refs = []
+    for e in t["enums"][:2]:
+        ns["enums"].append(copy.deepcopy(e) if r.maybe(0.5) else gen_enum(r, e["name"]))
+        refs.append(("enum", f"{tfull}.{e['name']}", f"{nfull}.{e['name']}"))
+    for m in t["messages"][:2]:
+        ns["messages"].append({"name": m["name"], "oneofs": [], "messages": [], "enums": [],
+                               "fields": [{"name": "ns_own", "number": 1, "card": "single", "type": r.pick(SCALARS)}]})
+        refs.append(("message", f"{tfull}.{m['name']}", f"{nfull}.{m['name']}"))
+        for x in (m["messages"][:1] if r.maybe(0.5) else []):
+            refs.append(("message", f"{tfull}.{m['name']}.{x['name']}", None))
+        for x in (m["enums"][:1] if r.maybe(0.5) else []):
+            refs.append(("enum", f"{tfull}.{m['name']}.{x['name']}", None))
+    number = 0
+    for kind, top, own in refs:
+        for ref in ([top, own] if own and r.maybe(0.6) else [top]):
+            number += 1
+            fl = {"name": f"ns_{number}", "number": number, "card": r.pick(["single", "single", "repeated", "optional", "map"]),
+                  "type": kind, "ref": ref}
+            if fl["card"] == "map":
+                fl["key"] = r.pick(apigen.MAP_KEY_TYPES)
+            ns["fields"].append(fl)
+    parent["messages"].append(ns)
 
 
 class _TooDense(Exception):
@@ -742,6 +795,61 @@ def helper_names_spec():
             oneofs=["how"]),
     ]
     return {"package": P, "files": [{"name": "pages", "enums": [state], "messages": msgs}]}
+
+
+def namesake_spec(loud=False):
+    """deterministic: nested messages called like a top-level message of the same file (Task.Status, Job.Step.Status) or of
+    another file (Report.Status), owning a nested enum `Code` / message `Detail` like the top-level one, with fields of every
+    cardinality typed by the TOP-LEVEL message's nested types and by their own; a namesake that owns nothing (Audit.Status).
+    The same-numbered enums are wire-compatible: only the field's run-time type name tells the two `Code`s apart.
+    Two specs: in the first EVERY referenced nested type of the top-level message has a counterpart at the same relative path in
+    the namesake (a reference printed relative to the wrong scope binds silently, the library imports); `loud` adds references
+    without counterpart (Status.Detail.Extra, Status.Detail.Level, the namesake Audit.Status that owns nothing), where such a
+    reference raises NameError / AttributeError at import."""
+    P = "acme.lib.v1"
+
+    def msg(name, fields=(), messages=(), enums=(), oneofs=()):
+        return {"name": name, "oneofs": list(oneofs), "fields": list(fields), "messages": list(messages), "enums": list(enums)}
+
+    def fld(name, number, type, card="single", ref=None, key=None):
+        d = {"name": name, "number": number, "card": card, "type": type}
+        if ref:
+            d["ref"] = ref
+        if key:
+            d["key"] = key
+        return d
+
+    def code(extra=()):
+        return {"name": "Code", "values": [["CODE_UNSPECIFIED", 0], ["OK", 1], ["FAILED", 2]] + list(extra)}
+    S = f"{P}.Status"
+    status = msg("Status", [fld("code", 1, "enum", ref=f"{S}.Code"), fld("detail", 2, "message", ref=f"{S}.Detail")],
+                 [msg("Detail", [fld("text", 1, "string"), fld("extra", 2, "message", ref=f"{S}.Detail.Extra")],
+                      [msg("Extra", [fld("hint", 1, "string")])], [{"name": "Level", "values": [["LEVEL_UNSPECIFIED", 0], ["HIGH", 3]]}])],
+                 [code()])
+
+    def namesake(full, detail_fields):
+        return msg("Status", ([fld("top_extra", 12, "message", ref=f"{S}.Detail.Extra"),
+                               fld("top_level", 13, "enum", ref=f"{S}.Detail.Level")] if loud else []) + [
+            fld("own_code", 1, "enum", ref=f"{full}.Code"), fld("top_code", 2, "enum", ref=f"{S}.Code"),
+            fld("top_codes", 3, "enum", "repeated", ref=f"{S}.Code"), fld("opt_top_code", 4, "enum", "optional", ref=f"{S}.Code"),
+            fld("codes_by_name", 5, "enum", "map", ref=f"{S}.Code", key="string"),
+            fld("one_code", 6, "enum", "oneof:pick", ref=f"{S}.Code"), fld("one_detail", 7, "message", "oneof:pick", ref=f"{S}.Detail"),
+            fld("own_detail", 8, "message", ref=f"{full}.Detail"), fld("top_detail", 9, "message", ref=f"{S}.Detail"),
+            fld("top_details", 10, "message", "repeated", ref=f"{S}.Detail"),
+            fld("details_by_id", 11, "message", "map", ref=f"{S}.Detail", key="int64"),
+            fld("top", 14, "message", ref=S), fld("own", 15, "message", ref=full)],
+            [msg("Detail", detail_fields)], [code()], oneofs=["pick"])
+    task = msg("Task", [fld("status", 1, "message", ref=f"{P}.Task.Status"), fld("top_status", 2, "message", ref=S)],
+               [namesake(f"{P}.Task.Status", [fld("count", 1, "int32")])])
+    job = msg("Job", [fld("id", 1, "string")],
+              [msg("Step", [fld("status", 1, "message", ref=f"{P}.Job.Step.Status")],
+                   [namesake(f"{P}.Job.Step.Status", [fld("text", 1, "string"), fld("count", 2, "sint64")])])])
+    audit = msg("Audit", [fld("status", 1, "message", ref=f"{P}.Audit.Status")],
+                [msg("Status", [fld("code", 1, "enum", ref=f"{S}.Code"), fld("detail", 2, "message", "repeated", ref=f"{S}.Detail")])])
+    report = msg("Report", [fld("status", 1, "message", ref=f"{P}.Report.Status")],
+                 [namesake(f"{P}.Report.Status", [fld("pages", 1, "uint32")])])
+    return {"package": P, "files": [{"name": "tasks", "enums": [], "messages": [status, task, job] + ([audit] if loud else [])},
+                                    {"name": "reports", "enums": [], "messages": [report]}]}
 
 
 def subpackage_spec():
@@ -1878,6 +1986,8 @@ def run(ctx):
     run_spec(ctx, r, layout_spec(), "layout", nvals=ctx.n(3, 8))
     run_spec(ctx, r, subpackage_spec(), "subpackages", nvals=ctx.n(3, 8))
     run_spec(ctx, r, helper_names_spec(), "helper-names", nvals=ctx.n(3, 8))
+    run_spec(ctx, r, namesake_spec(), "nested-namesakes", nvals=ctx.n(3, 8))
+    run_spec(ctx, r, namesake_spec(loud=True), "nested-namesakes-loud", nvals=ctx.n(2, 4))
     n = ctx.n(40, 500)
     for i in range(n):
         run_spec(ctx, r, gen_spec(r, big=(i % 5 == 4)), f"gen{i}")
